@@ -867,7 +867,11 @@ def c_format(E, st, fmt, args):
         if is_sym(v):
             if isinstance(v, z3.BitVecRef):
                 raise S.SymOffset(v)          # concretise by solver enumeration, one path per feasible value
-            raise EngineError("symbolic argument formatted by printf-family call")
+            # a real- or integer-valued symbol in progress / log text: rendered as a marker (the text of such
+            # messages is not part of any obligation)
+            E.res.assumptions.add("symbolic numbers inside formatted message text are rendered as '<sym>'")
+            out += b"<sym>"
+            continue
         spec = "%" + flags + (width or "") + ("." + prec if prec is not None else "")
         if conv in "di":
             bits = 64 if length in ("l", "ll", "z") else 32
